@@ -27,6 +27,32 @@ declares (256, checked by `put`).  a2kit does not check it: `write_sector` silen
 an accepted `put` of a longer chunk does **not** read back (see `design/FsDos.md`). -/
 def ChunksFit (f : FImg) : Prop := ∀ k d, f.chunks.lookup k = some d → d.length ≤ 256
 
+/-- the test of the repaired `put` (`Repairs.chunkGuard`): some chunk is longer than a sector -/
+def hasLongChunk (f : FImg) : Bool := f.chunks.any (fun c => decide (c.2.length > 256))
+
+theorem mem_of_lookup' {l : List (Nat × Bytes)} {k : Nat} {d : Bytes} (h : l.lookup k = some d) : (k, d) ∈ l := by
+  induction l with
+  | nil => cases h
+  | cons x xs ih =>
+    obtain ⟨a, b⟩ := x
+    rw [List.lookup_cons] at h
+    by_cases hk : k == a
+    · rw [hk] at h
+      simp only [Option.some.injEq] at h
+      have : k = a := by simpa using hk
+      rw [this, h]; exact List.mem_cons_self
+    · have hk' : (k == a) = false := by simpa using hk
+      rw [hk'] at h
+      exact List.mem_cons_of_mem _ (ih h)
+
+/-- a file image that passes the test of the repaired `put` has no over-long chunk -/
+theorem chunksFit_of_guard {f : FImg} (h : hasLongChunk f = false) : ChunksFit f := by
+  intro k d hd
+  unfold hasLongChunk at h
+  rw [List.any_eq_false] at h
+  have := h (k, d) (mem_of_lookup' hd)
+  simpa using this
+
 /-- sectors a file image needs: one per stored chunk and one T/S list per 122 chunk indices -/
 def sectorsNeeded (f : FImg) : Nat := f.chunks.length + (1 + (f.endIdx - 1) / 122)
 
@@ -36,14 +62,20 @@ has no type byte) -/
 def leakRes (res : R Nat) (f : FImg) (nf : Nat) : Prop :=
   (res = .error .diskFull ∧ sectorsNeeded f ≤ nf) ∨ res = .error .range
 
-/-- what a `write_file` does to the C04 accounting: unless it is one of the two refusals of `leakRes`, a reading
-without lost units stays so; in those two cases exactly one free unit is lost and nothing else changes -/
-structure PutL (pre post : Vol) (res : R Nat) (f : FImg) (nf : Nat) : Prop where
-  tight : ¬ leakRes res f nf → pre.noLeak = true → post.noLeak = true
-  leak : leakRes res f nf → post.files = pre.files ∧ post.free + 1 = pre.free ∧ post.sys = pre.sys ∧ post.lo = pre.lo ∧ post.hi = pre.hi
+/-- what a `write_file` does to the C04 accounting (`sf` = the source searches the directory slot first,
+`Repairs.slotFirst`): in the repaired source, and in the source as written unless the result is one of the two
+refusals of `leakRes`, a reading without lost units stays so; as written, in those two cases exactly one free unit is
+lost and nothing else changes -/
+structure PutL (pre post : Vol) (res : R Nat) (f : FImg) (nf : Nat) (sf : Bool) : Prop where
+  tight : (sf = true ∨ ¬ leakRes res f nf) → pre.noLeak = true → post.noLeak = true
+  leak : sf = false → leakRes res f nf →
+    post.files = pre.files ∧ post.free + 1 = pre.free ∧ post.sys = pre.sys ∧ post.lo = pre.lo ∧ post.hi = pre.hi
 
-theorem PutL.same {v : Vol} {res : R Nat} {f : FImg} {nf : Nat} (h : ¬ leakRes res f nf) : PutL v v res f nf :=
-  ⟨fun _ h => h, fun hl => absurd hl h⟩
+theorem PutL.same {v : Vol} {res : R Nat} {f : FImg} {nf : Nat} {sf : Bool} (h : sf = true ∨ ¬ leakRes res f nf) : PutL v v res f nf sf :=
+  ⟨fun _ h => h, fun hs hl => by
+    rcases h with h | h
+    · rw [hs] at h; cases h
+    · exact absurd hl h⟩
 
 /-! ## chunk matching -/
 
@@ -180,14 +212,27 @@ theorem slotIn_congr {r r' : Raw} {c : Nat} : ∀ {cat : List Nat}, (∀ u ∈ c
     simp only [slotIn]
     rw [h u List.mem_cons_self, ih (fun x hx => h x (List.mem_cons_of_mem _ hx))]
 
-/-- the successful `write_file` -/
-theorem writeFile_ok {w : W} {sb : List Nat} {L : Lay} (hi : WInv w sb L) {f : FImg} (hfit : ChunksFit f)
+/-- `get_next_directory_slot` on a state satisfying the invariant: the first free entry of the catalog chain, or
+DISK FULL when every entry of every catalog sector is in use; the state is not changed -/
+theorem nextDirectorySlot_eval {w : W} {sb : List Nat} {L : Lay} (hi : WInv w sb L) :
+    nextDirectorySlot w = (match slotIn w.img w.c L.cat with | some x => .ok x | none => .error .diskFull, w) := by
+  unfold nextDirectorySlot
+  simp only [M.bind_apply, M.getV_apply]
+  have hch : CatChain w.img w.c (Vtoc.track1 w.v) (Vtoc.sector1 w.v) L.cat := by
+    have h1 : Vtoc.track1 w.v = (vtocOf w.img w.c).getD 1 0 := by unfold Vtoc.track1; rw [getD_vtocOf hi.ok (by omega)]
+    have h2 : Vtoc.sector1 w.v = (vtocOf w.img w.c).getD 2 0 := by unfold Vtoc.sector1; rw [getD_vtocOf hi.ok (by omega)]
+    rw [h1, h2]; exact hi.desc.cat
+  exact slotLoop_ok hi.ok L.cat maxDirectoryReps _ _ (zeros 256) hch hi.catNe (Nat.le_of_lt hi.desc.catLen) (zeros_length' 256)
+
+/-- the successful `write_file` (either variant of the source: the order in which the T/S list sector is reserved and
+the directory slot searched does not matter when both succeed) -/
+theorem writeFile_ok {w : W} {sb : List Nat} {L : Lay} (hi : WInv w sb L) {f : FImg} (rp : Repairs) (hfit : ChunksFit f)
     {fname : Bytes} (hfn : stringToFileName f.fullPath = .ok fname) (hfl : fname.length = 30) (hfb : ∀ x ∈ fname, 128 ≤ x ∧ x < 256)
     (hch : f.chunks.length ≠ 0) (hnone : findIn w.img w.c fname L.cat = none)
     (hspace : sectorsNeeded f ≤ nfree w.v w.c)
     {dt ds e : Nat} (hslot : slotIn w.img w.c L.cat = some (dt, ds, e))
     {ty : Nat} {tyr : Bytes} (hty : f.fsType = ty :: tyr) :
-    ∃ wf L', writeFile f w = (.ok (sectorsNeeded f), wf) ∧ WInv wf sb L' ∧ wf.c = w.c ∧
+    ∃ wf L', writeFile f rp w = (.ok (sectorsNeeded f), wf) ∧ WInv wf sb L' ∧ wf.c = w.c ∧
       stepOk dosParams (volOf w.img w.c sb L) (.put (pathOfName fname) (putChunks f) 0 (ty % 128) 0) true
         (volOf wf.img w.c sb L') = true ∧
       ((volOf w.img w.c sb L).noLeak = true → (volOf wf.img w.c sb L').noLeak = true) := by
@@ -314,10 +359,14 @@ theorem writeFile_ok {w : W} {sb : List Nat} {L : Lay} (hi : WInv w sb L) {f : F
     hn0 hn1 (by rw [hn3]; exact hfb) (by rw [hn3]; exact hfresh) htt1
   have hcf : wf.c = w.c := hbuilt.hc
   refine ⟨wf, _, ?_, hinv, hcf, ?_, by rw [hvol]; exact noLeak_inserted hfiles hfree⟩
-  · unfold writeFile
+  · have hsl0 : nextDirectorySlot w = (.ok (dt, ds, e), w) := by rw [nextDirectorySlot_eval hi, hslot]
+    unfold writeFile writeTail
     simp only [M.bind_apply, M.getV_apply, M.lift_apply, M.pure_apply, hch, if_false, hgts, hnum, hty, hfn]
     have hcond : ¬ (f.chunks.length + (1 + (f.endIdx - 1) / Vtoc.maxPairs w.v) > nfree w.v w.c) := by rw [hmp]; omega
-    simp only [hcond, if_false, M.pure_apply, M.bind_apply, nextFreeM_apply, hnf, hal, hup, hsl, hrd, hfs, M.lift_apply]
+    cases hsf : rp.slotFirst <;>
+    simp only [hcond, if_false, if_true, Bool.false_eq_true, M.pure_apply, M.bind_apply, nextFreeM_apply, hnf, hal, hup, hsl, hsl0, hrd, hfs,
+      M.lift_apply, hfn] <;>
+    (
     have hdir3 : splice (splice (splice (sec w.img ud) (entryOff e) [tt, tsec, ty]) (entryOff e + 3) fname) (entryOff e + 33)
         (u16le ((1 + (f.endIdx - 1) / Vtoc.maxPairs w.v + f.chunks.length) % 65536)) =
         newSector (sec w.img ud) e tt tsec ty fname cnt := by rw [hcnt]; rfl
@@ -326,7 +375,7 @@ theorem writeFile_ok {w : W} {sb : List Nat} {L : Lay} (hi : WInv w sb L) {f : F
     simp only [hdir3]
     simp only [hwr, hmp]
     simp only [hlp']
-    rfl
+    rfl)
   · rw [hvol]
     have hp : (recOf wf.img w.c (entryAt (newSector (sec w.img ud) e tt tsec ty fname cnt) e) (Df ++ [Kf.uT])).path = pathOfName fname := by
       show pathOfName (slice _ 3 30) = _; rw [hn3]
@@ -343,12 +392,12 @@ theorem writeFile_ok {w : W} {sb : List Nat} {L : Lay} (hi : WInv w sb L) {f : F
 
 /-- `write_file` refused after the T/S list sector has been reserved (catalog full: DISK FULL; no file type: RANGE
 ERROR): the reserved sector stays marked used in the buffer, the files are untouched -/
-theorem writeFile_reserved_fail {w : W} {sb : List Nat} {L : Lay} (hi : WInv w sb L) {f : FImg}
-    {fname : Bytes} (hfn : stringToFileName f.fullPath = .ok fname)
+theorem writeFile_reserved_fail {w : W} {sb : List Nat} {L : Lay} (hi : WInv w sb L) {f : FImg} {rp : Repairs}
+    (hsf : rp.slotFirst = false) {fname : Bytes} (hfn : stringToFileName f.fullPath = .ok fname)
     (hch : f.chunks.length ≠ 0) (hnone : findIn w.img w.c fname L.cat = none)
     (hspace : ¬ (f.chunks.length + (1 + (f.endIdx - 1) / Vtoc.maxPairs w.v) > nfree w.v w.c))
     (hfail : slotIn w.img w.c L.cat = none ∨ f.fsType = []) (op : FsOp) :
-    ∃ er w', writeFile f w = (.error er, w') ∧ WInv w' sb L ∧ w'.c = w.c ∧
+    ∃ er w', writeFile f rp w = (.error er, w') ∧ WInv w' sb L ∧ w'.c = w.c ∧
       stepOk dosParams (volOf w.img w.c sb L) op false (volOf w'.img w.c sb L) = true ∧
       (er = .diskFull ∨ er = .range) ∧ (volOf w'.img w.c sb L).files = (volOf w.img w.c sb L).files ∧
       (volOf w'.img w.c sb L).free + 1 = (volOf w.img w.c sb L).free := by
@@ -405,7 +454,7 @@ theorem writeFile_reserved_fail {w : W} {sb : List Nat} {L : Lay} (hi : WInv w s
     refine ⟨.diskFull, w.withV vA, ?_, hinvA, rfl, hstep, Or.inl rfl, hfilesA, hfreeA⟩
     unfold writeFile
     simp only [M.bind_apply, M.getV_apply, M.lift_apply, M.pure_apply, hch, if_false, hgts, hnum, hspace, nextFreeM_apply, hnf, hal,
-      hup, hslE, hslot]
+      hup, hslE, hslot, hsf, Bool.false_eq_true]
   | some x =>
     obtain ⟨dt, ds, e⟩ := x
     have hty : f.fsType = [] := by
@@ -427,28 +476,67 @@ theorem writeFile_reserved_fail {w : W} {sb : List Nat} {L : Lay} (hi : WInv w s
     refine ⟨.range, w.withV vA, ?_, hinvA, rfl, hstep, Or.inr rfl, hfilesA, hfreeA⟩
     unfold writeFile
     simp only [M.bind_apply, M.getV_apply, M.lift_apply, M.pure_apply, hch, if_false, hgts, hnum, hspace, nextFreeM_apply, hnf, hal,
-      hup, hslE, hslot, hrd, hfs, hty, M.fail_apply]
+      hup, hslE, hslot, hrd, hfs, hty, M.fail_apply, hsf, Bool.false_eq_true]
+
+/-- the repaired source (`slotFirst`): a full catalog (DISK FULL) or a missing type byte (RANGE ERROR) refuses the file
+**before** anything is reserved — the state is returned as it was -/
+theorem writeFile_early_fail {w : W} {sb : List Nat} {L : Lay} (hi : WInv w sb L) {f : FImg} {rp : Repairs}
+    (hsf : rp.slotFirst = true) {fname : Bytes} (hfn : stringToFileName f.fullPath = .ok fname)
+    (hch : f.chunks.length ≠ 0) (hnone : findIn w.img w.c fname L.cat = none)
+    (hspace : ¬ (f.chunks.length + (1 + (f.endIdx - 1) / Vtoc.maxPairs w.v) > nfree w.v w.c))
+    (hfail : slotIn w.img w.c L.cat = none ∨ f.fsType = []) :
+    ∃ er, writeFile f rp w = (.error er, w) := by
+  have hok := hi.ok
+  have haok := winv_aok hi
+  obtain ⟨o, hgts, hoi⟩ := getTslistSector_eval hi hfn
+  have ho : o = none := hoi.2 hnone
+  subst ho
+  have hnum := numFree_eq hok.vok
+  have hpos : 0 < nfree w.v w.c := by
+    rcases Nat.eq_zero_or_pos (nfree w.v w.c) with h0 | h0
+    · exfalso; apply hspace; rw [h0]; generalize (f.endIdx - 1) / Vtoc.maxPairs w.v = q; omega
+    · exact h0
+  obtain ⟨tt, tsec, hnf, _⟩ := alloc_step haok hpos true
+  have hsl := nextDirectorySlot_eval hi
+  cases hslot : slotIn w.img w.c L.cat with
+  | none =>
+    refine ⟨.diskFull, ?_⟩
+    unfold writeFile
+    simp only [M.bind_apply, M.getV_apply, M.lift_apply, M.pure_apply, hch, if_false, hgts, hnum, hspace, nextFreeM_apply, hnf,
+      hsl, hslot, hsf, if_true]
+  | some x =>
+    obtain ⟨dt, ds, e⟩ := x
+    have hty : f.fsType = [] := by
+      rcases hfail with h | h
+      · rw [hslot] at h; cases h
+      · exact h
+    refine ⟨.range, ?_⟩
+    unfold writeFile
+    simp only [M.bind_apply, M.getV_apply, M.lift_apply, M.pure_apply, hch, if_false, hgts, hnum, hspace, nextFreeM_apply, hnf,
+      hsl, hslot, hsf, if_true, hty, M.fail_apply]
 
 
-/-- **`put` refines the specification** (any number of T/S lists, holes, short chunks): accepted → exactly one record is
-inserted, on previously free sectors, reading back the stored chunks; refused (empty image, name in use, not
-enough free sectors, catalog full, no type) → the files are untouched and the volume stays well formed.  C04 (`PutL`):
-no unit is lost, except by the two refusals that come after the T/S list sector has been reserved. -/
-theorem putM_refines {w : W} {sb : List Nat} {L : Lay} (hi : WInv w sb L) {f : FImg} (hfit : ChunksFit f)
+/-- **`put` refines the specification** (any number of T/S lists, holes, short chunks; either variant of the source):
+accepted → exactly one record is inserted, on previously free sectors, reading back the stored chunks; refused (empty
+image, name in use, not enough free sectors, catalog full, no type) → the files are untouched and the volume stays well
+formed.  C04 (`PutL`): no unit is lost, except — in the source as written — by the two refusals that come after the T/S
+list sector has been reserved; in the repaired source (`slotFirst`) every refusal returns the state as it was. -/
+theorem putM_refines {w : W} {sb : List Nat} {L : Lay} (hi : WInv w sb L) {f : FImg} (rp : Repairs) (hfit : ChunksFit f)
     {fname : Bytes} (hfn : stringToFileName f.fullPath = .ok fname) (hfl : fname.length = 30) (hfb : ∀ x ∈ fname, 128 ≤ x ∧ x < 256) :
-    ∃ res w' L', writeFile f w = (res, w') ∧ WInv w' sb L' ∧ w'.c = w.c ∧
+    ∃ res w' L', writeFile f rp w = (res, w') ∧ WInv w' sb L' ∧ w'.c = w.c ∧
       stepOk dosParams (volOf w.img w.c sb L) (.put (pathOfName fname) (putChunks f) 0 (f.fsType.getD 0 0 % 128) 0) (isOk res)
         (volOf w'.img w.c sb L') = true ∧
-      PutL (volOf w.img w.c sb L) (volOf w'.img w.c sb L') res f (nfree w.v w.c) := by
+      PutL (volOf w.img w.c sb L) (volOf w'.img w.c sb L') res f (nfree w.v w.c) rp.slotFirst ∧
+      (rp.slotFirst = true → isOk res = false → w' = w) := by
   by_cases hch : f.chunks.length = 0
-  · refine ⟨.error .endOfData, w, L, ?_, hi, rfl, stepOk_refused_same hi.wf _, PutL.same (by unfold leakRes; simp)⟩
+  · refine ⟨.error .endOfData, w, L, ?_, hi, rfl, stepOk_refused_same hi.wf _, PutL.same (Or.inr (by unfold leakRes; simp)), fun _ _ => rfl⟩
     unfold writeFile
     simp only [M.bind_apply, M.getV_apply, hch, if_true, M.fail_apply]
   · obtain ⟨o, hgts, hoi⟩ := getTslistSector_eval hi hfn
     cases hf : findIn w.img w.c fname L.cat with
     | some x =>
       have ho : o ≠ none := fun e => by rw [hoi.1 e] at hf; cases hf
-      refine ⟨.error .writeProtected, w, L, ?_, hi, rfl, stepOk_refused_same hi.wf _, PutL.same (by unfold leakRes; simp)⟩
+      refine ⟨.error .writeProtected, w, L, ?_, hi, rfl, stepOk_refused_same hi.wf _, PutL.same (Or.inr (by unfold leakRes; simp)), fun _ _ => rfl⟩
       unfold writeFile
       simp only [M.bind_apply, M.getV_apply, hch, if_false, M.pure_apply, hgts]
       cases o with
@@ -459,7 +547,7 @@ theorem putM_refines {w : W} {sb : List Nat} {L : Lay} (hi : WInv w sb L) {f : F
       subst ho
       have hnum := numFree_eq hi.ok.vok
       by_cases hsp : f.chunks.length + (1 + (f.endIdx - 1) / Vtoc.maxPairs w.v) > nfree w.v w.c
-      · refine ⟨.error .diskFull, w, L, ?_, hi, rfl, stepOk_refused_same hi.wf _, PutL.same ?_⟩
+      · refine ⟨.error .diskFull, w, L, ?_, hi, rfl, stepOk_refused_same hi.wf _, PutL.same (Or.inr ?_), fun _ _ => rfl⟩
         · unfold writeFile
           simp only [M.bind_apply, M.getV_apply, M.lift_apply, hch, if_false, M.pure_apply, hgts, hnum, hsp, if_true, M.fail_apply]
         · rw [hi.ok.vPairs] at hsp
@@ -468,41 +556,37 @@ theorem putM_refines {w : W} {sb : List Nat} {L : Lay} (hi : WInv w sb L) {f : F
           intro _; exact hsp
       · have hsp' : sectorsNeeded f ≤ nfree w.v w.c := by
           rw [hi.ok.vPairs] at hsp; unfold sectorsNeeded; omega
-        cases hslot : slotIn w.img w.c L.cat with
-        | none =>
-          obtain ⟨er, w', he, hinv, hc, hs, her, hfs, hfr⟩ := writeFile_reserved_fail hi hfn hch hf hsp (Or.inl hslot)
-            (.put (pathOfName fname) (putChunks f) 0 (f.fsType.getD 0 0 % 128) 0)
-          have hlk : leakRes (.error er : R Nat) f (nfree w.v w.c) := by
-            rcases her with rfl | rfl
-            · exact Or.inl ⟨rfl, hsp'⟩
-            · exact Or.inr rfl
-          exact ⟨_, w', L, he, hinv, hc, hs, fun hn => absurd hlk hn, fun _ => ⟨hfs, hfr, rfl, rfl, rfl⟩⟩
-        | some x =>
-          obtain ⟨dt, ds, e⟩ := x
-          cases hty : f.fsType with
-          | nil =>
-            obtain ⟨er, w', he, hinv, hc, hs, her, hfs, hfr⟩ := writeFile_reserved_fail hi hfn hch hf hsp (Or.inr hty)
-              (.put (pathOfName fname) (putChunks f) 0 (([] : Bytes).getD 0 0 % 128) 0)
+        have refusal : (slotIn w.img w.c L.cat = none ∨ f.fsType = []) →
+            ∃ res w' L', writeFile f rp w = (res, w') ∧ WInv w' sb L' ∧ w'.c = w.c ∧
+              stepOk dosParams (volOf w.img w.c sb L) (.put (pathOfName fname) (putChunks f) 0 (f.fsType.getD 0 0 % 128) 0) (isOk res)
+                (volOf w'.img w.c sb L') = true ∧
+              PutL (volOf w.img w.c sb L) (volOf w'.img w.c sb L') res f (nfree w.v w.c) rp.slotFirst ∧
+              (rp.slotFirst = true → isOk res = false → w' = w) := by
+          intro hfail
+          cases hsf : rp.slotFirst with
+          | true =>
+            obtain ⟨er, he⟩ := writeFile_early_fail hi hsf hfn hch hf hsp hfail
+            exact ⟨_, w, L, he, hi, rfl, stepOk_refused_same hi.wf _, PutL.same (Or.inl rfl), fun _ _ => rfl⟩
+          | false =>
+            obtain ⟨er, w', he, hinv, hc, hs, her, hfs, hfr⟩ := writeFile_reserved_fail hi hsf hfn hch hf hsp hfail
+              (.put (pathOfName fname) (putChunks f) 0 (f.fsType.getD 0 0 % 128) 0)
             have hlk : leakRes (.error er : R Nat) f (nfree w.v w.c) := by
               rcases her with rfl | rfl
               · exact Or.inl ⟨rfl, hsp'⟩
               · exact Or.inr rfl
-            exact ⟨_, w', L, he, hinv, hc, hs, fun hn => absurd hlk hn, fun _ => ⟨hfs, hfr, rfl, rfl, rfl⟩⟩
+            refine ⟨_, w', L, he, hinv, hc, hs, ⟨fun hn => ?_, fun _ _ => ⟨hfs, hfr, rfl, rfl, rfl⟩⟩, fun h => by cases h⟩
+            rcases hn with hn | hn
+            · cases hn
+            · exact absurd hlk hn
+        cases hslot : slotIn w.img w.c L.cat with
+        | none => exact refusal (Or.inl hslot)
+        | some x =>
+          obtain ⟨dt, ds, e⟩ := x
+          cases hty : f.fsType with
+          | nil => rw [← hty]; exact refusal (Or.inr hty)
           | cons ty tyr =>
-            obtain ⟨wf, L', he, hinv, hc, hs, hnl⟩ := writeFile_ok hi hfit hfn hfl hfb hch hf hsp' hslot hty
-            exact ⟨_, wf, L', he, hinv, hc, by simpa using hs, fun _ => hnl, fun hl => by unfold leakRes at hl; simp at hl⟩
-
-/-- `get_next_directory_slot` on a state satisfying the invariant: the first free entry of the catalog chain, or
-DISK FULL when every entry of every catalog sector is in use; the state is not changed -/
-theorem nextDirectorySlot_eval {w : W} {sb : List Nat} {L : Lay} (hi : WInv w sb L) :
-    nextDirectorySlot w = (match slotIn w.img w.c L.cat with | some x => .ok x | none => .error .diskFull, w) := by
-  unfold nextDirectorySlot
-  simp only [M.bind_apply, M.getV_apply]
-  have hch : CatChain w.img w.c (Vtoc.track1 w.v) (Vtoc.sector1 w.v) L.cat := by
-    have h1 : Vtoc.track1 w.v = (vtocOf w.img w.c).getD 1 0 := by unfold Vtoc.track1; rw [getD_vtocOf hi.ok (by omega)]
-    have h2 : Vtoc.sector1 w.v = (vtocOf w.img w.c).getD 2 0 := by unfold Vtoc.sector1; rw [getD_vtocOf hi.ok (by omega)]
-    rw [h1, h2]; exact hi.desc.cat
-  exact slotLoop_ok hi.ok L.cat maxDirectoryReps _ _ (zeros 256) hch hi.catNe (Nat.le_of_lt hi.desc.catLen) (zeros_length' 256)
+            obtain ⟨wf, L', he, hinv, hc, hs, hnl⟩ := writeFile_ok hi rp hfit hfn hfl hfb hch hf hsp' hslot hty
+            refine ⟨_, wf, L', he, hinv, hc, by simpa using hs, ⟨fun _ => hnl, fun _ hl => by unfold leakRes at hl; simp at hl⟩, fun _ h => by cases h⟩
 
 /-- C04, acceptance clause for the concrete DOS model: a file image with at least one chunk, a type, a valid name
 not yet in the catalog, for which the catalog has a free entry and `sectorsNeeded f` (data sectors + one T/S list
@@ -511,8 +595,8 @@ per 122 chunk indices) free sectors exist, **is accepted** — `write_file` retu
 theorem writeFile_accepts {w : W} {sb : List Nat} {L : Lay} (hi : WInv w sb L) {f : FImg} (hfit : ChunksFit f)
     (hv : isNameValid f.fullPath = true) (hch : f.chunks.length ≠ 0) (hty : f.fsType ≠ [])
     (hfresh : pathOf f.fullPath ∉ (volOf w.img w.c sb L).paths)
-    (hslot : (slotIn w.img w.c L.cat).isSome = true) (hspace : sectorsNeeded f ≤ nfree w.v w.c) :
-    (writeFile f w).1 = .ok (sectorsNeeded f) := by
+    (hslot : (slotIn w.img w.c L.cat).isSome = true) (hspace : sectorsNeeded f ≤ nfree w.v w.c) (rp : Repairs := {}) :
+    (writeFile f rp w).1 = .ok (sectorsNeeded f) := by
   obtain ⟨fname, hfn, hfl, hfb⟩ := stringToFileName_ok hv
   have hp : pathOf f.fullPath = pathOfName fname := by unfold pathOf; rw [hfn]
   have hnone : findIn w.img w.c fname L.cat = none := by
@@ -537,7 +621,7 @@ theorem writeFile_accepts {w : W} {sb : List Nat} {L : Lay} (hi : WInv w sb L) {
     cases hty' : f.fsType with
     | nil => exact absurd hty' hty
     | cons ty tyr =>
-      obtain ⟨wf, L', he, _⟩ := writeFile_ok hi hfit hfn hfl hfb hch hnone hspace hs hty'
+      obtain ⟨wf, L', he, _⟩ := writeFile_ok hi rp hfit hfn hfl hfb hch hnone hspace hs hty'
       rw [he]
 
 end A2Verif.Fs.Dos3x
